@@ -7,10 +7,10 @@ Scanner, MapScan, SliceMap, the iterator built by executeQuery). Specification: 
 `Model/RowDataSpec.lean`: which types have a Go type, RowData's names.
 Helper lemmas: `Proofs/C04Prim|Types|Meta|Frames|Resp|Wire|Rows|Maps.lean`.
 The models describe the code AFTER the repairs of KF-C04-1 (readTypeInfo), KF-C04-2 (iterScanner.Scan),
-KF-C04-4 (goType), KF-C04-5 (executeQuery); KF-C04-3 (nil destination on a tuple column) is open.
+KF-C04-4 (goType), KF-C04-5 (executeQuery), KF-C04-7 (unmarshalUDT: a short UDT value into a reused struct);
+KF-C04-3 (nil destination on a tuple column) is open.
 `Model/RowsReuse.lean`: typed destinations reused across the rows of a page (section 7; helper lemmas in
-`Proofs/C04Reuse.lean`); KF-C04-6 (an empty cell into a reused `[]byte`) and KF-C04-7 (a short UDT value into a
-reused struct) are open.
+`Proofs/C04Reuse.lean`); KF-C04-6 (an empty cell into a reused `[]byte`) is open.
 -/
 import Proofs.C04Wire
 import Proofs.C04Rows
